@@ -98,7 +98,7 @@ func run() {
 			// announce the case before running it, so that a crash can be attributed
 			fmt.Fprintf(os.Stderr, "@start %d\n", line.ID)
 			res := inst.VerifQuery(line.Text, line.Optimize)
-			emit(out, map[string]interface{}{"id": line.ID, "op": "query", "code": res.Code, "body": res.Body, "raw": res.Raw, "err": res.Err, "reprint": res.Reprint})
+			emit(out, map[string]interface{}{"id": line.ID, "op": "query", "code": res.Code, "body": res.Body, "raw": res.Raw, "err": res.Err, "reprint": res.Reprint, "sub_err": res.SubErr})
 		default:
 			if worldOp(out, &inst, line.Op, rawLine, scratch) {
 				continue
